@@ -49,6 +49,32 @@ pub mod unit_core {
             && forall |k: int| 0 <= k < n_collect ==> #[trigger] out[k] == h[n_discard + k + 1].st()
     }
 
+    /// C09, "two consecutive runs return exactly what one longer run returns": a run from a to b followed by a run without
+    /// burn-in from b to c satisfies, with the rows concatenated, the contract of the single longer run from a to c
+    pub proof fn lemma_two_runs_are_one_longer_run<T, M: MarkovChain<T>>(a: M, b: M, c: M, o1: Seq<Seq<T>>, o2: Seq<Seq<T>>, n1: int, d: int, n2: int)
+        requires n1 >= 0, d >= 0, n2 >= 0, run_post::<T, M>(a, b, o1, n1, d), run_post::<T, M>(b, c, o2, n2, 0)
+        ensures run_post::<T, M>(a, c, o1 + o2, n1 + n2, d)      // [C09.two_consecutive_runs_equal_one_longer_run]
+    {
+        let h1 = choose |h: Seq<M>| #[trigger] hist_ok::<T, M>(h, a, b, n1 + d) && o1.len() == n1 && forall |k: int| 0 <= k < n1 ==> #[trigger] o1[k] == h[d + k + 1].st();
+        let h2 = choose |h: Seq<M>| #[trigger] hist_ok::<T, M>(h, b, c, n2 + 0) && o2.len() == n2 && forall |k: int| 0 <= k < n2 ==> #[trigger] o2[k] == h[0 + k + 1].st();
+        let h = h1 + h2.subrange(1, n2 + 1);
+        let t1 = n1 + d;
+        assert(h.len() == t1 + n2 + 1);
+        assert forall |i: int| 0 <= i < t1 + n2 implies #[trigger] M::step_rel(h[i], h[i + 1]) by {
+            if i < t1 { assert(h[i] == h1[i] && h[i + 1] == h1[i + 1]); }
+            else if i == t1 { assert(h[i] == h1[t1] && h1[t1] == b && h2[0] == b && h[i + 1] == h2[1]); assert(M::step_rel(h2[0int], h2[0int + 1])); }
+            else { let j = i - t1; assert(h[i] == h2[j] && h[i + 1] == h2[j + 1]); assert(M::step_rel(h2[j], h2[j + 1])); }
+        }
+        assert(h[0] == a);
+        assert(h[t1 + n2] == c) by { if n2 == 0 { assert(h[t1] == h1[t1]); assert(b == c) by { assert(h2[0] == b && h2[n2] == c); } } else { assert(h[t1 + n2] == h2[n2]); } }
+        assert(hist_ok::<T, M>(h, a, c, (n1 + n2) + d));
+        let o = o1 + o2;
+        assert forall |k: int| 0 <= k < n1 + n2 implies #[trigger] o[k] == h[d + k + 1].st() by {
+            if k < n1 { assert(o[k] == o1[k]); assert(h[d + k + 1] == h1[d + k + 1]); }
+            else { let k2 = k - n1; assert(o[k] == o2[k2]); assert(h[d + k + 1] == h2[k2 + 1]); }
+        }
+    }
+
     pub fn run_chain<T, M: MarkovChain<T>>(chain: &mut M, n_collect: usize, n_discard: usize) -> (out: Array2<T>)
         requires n_collect + n_discard <= usize::MAX
         ensures
